@@ -1037,6 +1037,44 @@ fn gen_xlit(rng: &mut Rng) -> X
 	xlit(rng, v)
 }
 
+/// boundary operands for the unary operators, as they can be WRITTEN: i64::MIN only exists as an expression
+/// (none of these touches an open corner)
+fn unary_operands() -> Vec<X>
+{
+	let lit = |v: i64| X::Lit(v, Form::Dec);
+	let b = |x: X| Box::new(x);
+	let max = i64::MAX;
+	vec![
+		// exactly i64::MIN
+		X::Bin(SUB, b(X::Neg(b(lit(max)))), b(lit(1))),
+		X::Bin(SUB, b(X::Bin(SUB, b(lit(0)), b(lit(max)))), b(lit(1))),
+		X::Bin(MUL, b(X::Neg(b(X::Lit(1 << 62, Form::Hex)))), b(lit(2))),
+		X::Par(b(X::Bin(SUB, b(X::Neg(b(X::Lit(max, Form::Hex)))), b(lit(1))))),
+		// MIN + 1, MAX, MAX - 1, 0, 1, -1
+		X::Neg(b(lit(max))),
+		X::Par(b(X::Neg(b(lit(max))))),
+		lit(max),
+		X::Lit(max, Form::Oct),
+		X::Bin(SUB, b(lit(max)), b(lit(1))),
+		lit(0),
+		lit(1),
+		X::Neg(b(lit(1))),
+		X::Par(b(X::Neg(b(lit(1))))),
+		lit(5),
+	]
+}
+
+/// `ops` (outermost first; true = `-`, false = `!`) stacked on `x`, each unary operator its own node
+fn stack_unary(ops: &[bool], x: X) -> X
+{
+	let mut e = x;
+	for &neg in ops.iter().rev()
+	{
+		e = if neg {X::Neg(Box::new(e))} else {X::Not(Box::new(e))};
+	}
+	e
+}
+
 fn gen_x(rng: &mut Rng, depth: u32) -> X
 {
 	if depth == 0 || rng.chance(1, 6) {return gen_xlit(rng);}
@@ -1045,6 +1083,14 @@ fn gen_x(rng: &mut Rng, depth: u32) -> X
 		0 | 1 => X::Neg(Box::new(gen_x(rng, depth - 1))),
 		2 => X::Not(Box::new(gen_x(rng, depth - 1))),
 		3 => X::Par(Box::new(gen_x(rng, depth - 1))),
+		6 =>
+		{
+			let n = 2 + rng.below(2) as usize;
+			let ops: Vec<bool> = (0..n).map(|_| rng.chance(2, 3)).collect();
+			let operands = unary_operands();
+			let x = if rng.chance(2, 3) {rng.pick(&operands).clone()} else {gen_x(rng, depth - 1)};
+			stack_unary(&ops, x)
+		},
 		4 | 5 =>
 		{
 			let op = if rng.chance(1, 2) {SHL} else {SHR};
@@ -1232,6 +1278,45 @@ fn run_text_stream(cx: &mut Cx)
 		}
 	}
 	cx.report.hit_n("text: operator pair cases (all ordered pairs, both sides, unary above/below)", cases.len() as u64);
+	// stacked unary operators (every sequence of 2 and 3 of `-` `!`) over boundary operands incl. i64::MIN, bare and
+	// inside larger expressions; each unary operator is its own node of the documented grammar, so `--MIN` is an error
+	let mut stacked: Vec<X> = Vec::new();
+	{
+		let lit = |v: i64| X::Lit(v, Form::Dec);
+		let b = |x: X| Box::new(x);
+		let mut seqs: Vec<Vec<bool>> = Vec::new();
+		for n in 2..=3usize
+		{
+			for m in 0..(1u32 << n) {seqs.push((0..n).map(|k| m >> k & 1 == 1).collect());}
+		}
+		for x in unary_operands()
+		{
+			for ops in seqs.iter()
+			{
+				let u = stack_unary(ops, x.clone());
+				stacked.push(u.clone());
+				stacked.push(X::Bin(ADD, b(lit(1)), b(u.clone())));
+				stacked.push(X::Bin(MUL, b(u.clone()), b(lit(2))));
+				stacked.push(X::Bin(SUB, b(lit(0)), b(u.clone())));
+				stacked.push(X::Bin(SUB, b(u.clone()), b(lit(1))));
+				stacked.push(X::Bin(DIV, b(u.clone()), b(lit(1))));
+				stacked.push(X::Bin(OR, b(lit(0)), b(X::Bin(AND, b(u.clone()), b(X::Neg(b(lit(1))))))));
+				stacked.push(X::Par(b(u)));
+			}
+		}
+	}
+	cx.report.hit_n("text: stacked unary cases (all sequences of 2-3 of - !, boundary operands incl. i64::MIN, 8 contexts)", stacked.len() as u64);
+	for x in stacked.iter()
+	{
+		let is_min_neg = spec(&x.tree()) == Spec::Error;
+		if is_min_neg {cx.report.hit("text: stacked unary case that must be an error");}
+		for sp in 0..3u8
+		{
+			let stmt = statement(n, &x.text(sp));
+			check_text(cx, &stmt, x, true, &mut parsed_trees);
+			n += 1;
+		}
+	}
 	for x in cases.iter()
 	{
 		for sp in 0..2u8
@@ -1626,7 +1711,7 @@ random closed trees over literals {0, +-1, 2^k, 2^k+-1, i64 extremes, small} of 
 (exact tree, changed flag, error kind), the Lean specification Arith.eval vs the harness oracle, and the oracle (i128 arithmetic per the property \
 text: value, error, or open corner) vs the implementation. TEXT stream: expressions written as source text with exactly the parentheses the README \
 precedence table requires (unary - ! > * / % > + - > << >> > & > ^ > |, left associative) - every ordered (parent, child) operator pair on either \
-side, unary operators above and below every binary operator, random deeper expressions, literals in decimal / hex / binary / octal / character \
+side, unary operators above and below every binary operator, every stacked sequence of 2-3 unary operators over boundary operands including expressions equal to i64::MIN (bare and inside larger expressions; each unary operator is its own node, so `--MIN` must be an error), random deeper expressions, literals in decimal / hex / binary / octal / character \
 form, three spacing styles - parsed by the real Parser as the argument of a directive or instruction, then real simplify / evaluate on the parsed \
 argument vs the i128 value of the tree the DOCUMENTED table assigns to the text; for a sample `.addr 0; .du32 <expr>;` through the real Context \
 must emit the little-endian value (or a diagnostic when the value is an error). non-trivial = the tree was rewritten; distinct = distinct results".to_owned();
